@@ -19,6 +19,10 @@ threaded through the callee's result), and per-method configured treatments of o
   emit    -- a call statement (or a `for x in self.coll.values(): x.m()` loop, keyed "for:<iterable>:<body>") whose effect lies
              outside the translated attributes: it is recorded, in order, as an event (tag, values of the listed attributes at
              that moment) appended to the extra result `events`; the Gen = Model theorem interprets the events on the model
+  fold    -- `for x in <iterable>:` named under `folds`: the iterable becomes a list of records holding what the body reads of
+             each element (attributes of x, configured element-level expressions, x itself as an identifier, its presence when
+             elements may be None); the locals / attributes the body assigns are the accumulator of a `fold_left`; `continue`
+             returns the accumulator, `break` sets a carried flag that makes the remaining iterations no-ops
 Assignments to attributes listed under `ignore` are erased (they must not be read).  With `until_if` only the statements
 before the first top-level `if` whose test has the given source text are translated (the rest is modelled elsewhere).
 Everything else is refused."""
@@ -133,12 +137,24 @@ class TrM:
         self.obj_params = set(m.get("obj_params", [])) | set(m.get("local_objects", []))   # parameters / locals that are objects: only their attributes are read or assigned
         self.truthy_some = set(m.get("truthy_some", []))      # optional values whose truth value is "is not None" (named assumption)
         self.refined = {}                                     # name -> "Z": an optional known to be Some in this branch
+        self.loop = None                                      # the fold being translated, if any
         self.binders = []        # [(name, type)] in order of first use
         self.writes = []
         self.locals = {}
         self.locals_seen = set()
 
     # -- bookkeeping ----------------------------------------------------------------------------------------------
+    def field(self, nm, ty):
+        """a component of the element record of the fold being translated"""
+        fl = self.loop["fields"]
+        for (n, t) in fl:
+            if n == nm:
+                if t != ty:
+                    raise Refuse("element field %s used at two types" % nm)
+                return nm, ty
+        fl.append((nm, ty))
+        return nm, ty
+
     def binder(self, nm, ty):
         for (n, t) in self.binders:
             if n == nm:
@@ -192,6 +208,8 @@ class TrM:
                         nm = "_".join(cname(c) for c in ch)
                         if ch[0] not in self.g.ignore and nm not in self.writes:
                             self.writes.append(nm)
+                if isinstance(n, ast.stmt) and self.m.get("stmts", {}).get(ast.unparse(n), [None])[0] == "emit" and "events" not in self.writes:
+                    self.writes.append("events")
                 if isinstance(n, ast.For) and self.calls.get(self.for_key(n), [None])[0] == "emit":
                     if "events" not in self.writes:
                         self.writes.append("events")
@@ -219,6 +237,20 @@ class TrM:
     # -- expressions ----------------------------------------------------------------------------------------------
     def expr(self, e):
         src = ast.unparse(e)
+        if self.loop is not None:
+            lf = self.loop["cfg"].get("fields", {})
+            if src in lf and not isinstance(lf[src], list):
+                return self.field(*lf[src])
+            if isinstance(e, ast.Name) and e.id == self.loop["var"]:
+                return self.field(cname(self.loop["var"]) + "_id", "Z")        # the element itself, as an identifier
+            if isinstance(e, ast.Attribute):
+                chl = chain(e, (self.loop["var"],))
+                if chl is not None:
+                    nm = "_".join(cname(c) for c in chl)
+                    return self.field(nm, self.attr_type(nm))
+        if isinstance(e, ast.Call) and isinstance(e.func, ast.Name) and e.func.id == "float" and len(e.args) == 1 and \
+                isinstance(e.args[0], ast.Constant) and e.args[0].value == "inf":
+            return "(@None Z)", "infZ"          # +infinity: None of an option whose Some values are finite
         if src in self.exprs:
             nm, ty = self.exprs[src]
             self.binder(nm, ty)
@@ -308,7 +340,7 @@ class TrM:
                 return "(%s %s)" % (cn, " ".join(args)), rty
             raise Refuse("call %s in expression position" % k)
         if isinstance(e, ast.UnaryOp):
-            a, ta = self.expr(e.operand)
+            a, ta = self.truth(e.operand) if isinstance(e.op, ast.Not) else self.expr(e.operand)
             if isinstance(e.op, ast.Not) and ta == "bool":
                 return "(negb %s)" % a, "bool"
             if isinstance(e.op, ast.USub) and ta == "Z":
@@ -337,6 +369,8 @@ class TrM:
                 t = "(" + " || ".join(parts) + ")"
                 return ("(negb %s)" % t if isinstance(op, ast.NotIn) else t), "bool"
             a, ta = self.expr(e.left); b, tb = self.expr(rhs)
+            if ta == "Z" and tb == "infZ" and isinstance(op, (ast.Lt, ast.LtE)):
+                return "(match %s with None => true | Some m__ => (%s %s m__) end)" % (b, a, "<?" if isinstance(op, ast.Lt) else "<=?"), "bool"
             if "optZ" in (ta, tb) and isinstance(op, (ast.Eq, ast.NotEq, ast.Is, ast.IsNot)) and {ta, tb} <= {"optZ", "Z"}:
                 if isinstance(op, (ast.Is, ast.IsNot)) and "(@None Z)" not in (a, b):
                     raise Refuse("identity comparison of optional values")
@@ -358,11 +392,21 @@ class TrM:
                     return fmt % (a, b), "bool"
             raise Refuse("comparison operator")
         if isinstance(e, ast.BoolOp):
-            parts = [self.expr(v) for v in e.values]
+            parts = [self.truth(v) for v in e.values]
             if any(t != "bool" for _x, t in parts):
                 raise Refuse("and/or of non-booleans")
             return "(" + (" && " if isinstance(e.op, ast.And) else " || ").join(x for x, _t in parts) + ")", "bool"
         raise Refuse("expression %s" % type(e).__name__)
+
+    def truth(self, e):
+        """the truth value of an expression: a boolean as it is; an optional declared truthy-when-present by its presence"""
+        t, ty = self.expr(e)
+        if ty == "optZ":
+            key = ("l_" + e.id) if isinstance(e, ast.Name) else t
+            if key not in self.truthy_some and t not in self.truthy_some:
+                raise Refuse("truth value of the optional %s (not declared truthy-when-present)" % t)
+            return "(match %s with Some _ => true | None => false end)" % t, "bool"
+        return t, ty
 
     @staticmethod
     def zlit(v):
@@ -391,7 +435,9 @@ class TrM:
     def coq_type(ty):
         if "*" in ty:
             return "(" + " * ".join(TrM.coq_type(x) for x in ty.split("*")) + ")"
-        return {"optZ": "option Z", "events": "list (Z * list Z)"}.get(ty, ty)
+        if ty.startswith("coq:"):
+            return ty[4:]
+        return {"optZ": "option Z", "infZ": "option Z", "events": "list (Z * list Z)"}.get(ty, ty)
 
     def refinable(self, e):
         """(coq name) when e is a local or an attribute chain of optional type that is not yet refined"""
@@ -423,6 +469,14 @@ class TrM:
                 if nm not in self.truthy_some:
                     raise Refuse("truth value of the optional %s (not declared truthy-when-present)" % nm)
                 target = nm
+        if self.loop is not None and isinstance(t, ast.Name) and t.id == self.loop["var"] and not is_expr:
+            if not self.loop["cfg"].get("optional"):
+                raise Refuse("truth value of the loop element (elements not declared optional)")
+            pres, _ = self.field(cname(self.loop["var"]) + "_present", "bool")
+            sl, sr = dict(self.locals), dict(self.refined)
+            a = then_thunk(); self.locals, self.refined = dict(sl), dict(sr)
+            b = else_thunk(); self.locals, self.refined = dict(sl), dict(sr)
+            return "if %s then %s\n  else %s" % (("(negb %s)" % pres) if neg else pres, a, b)
         saved_l, saved_r = dict(self.locals), dict(self.refined)
 
         def run(thunk, refine):
@@ -547,6 +601,62 @@ class TrM:
             return "let '(%s, %s) := %s in\n  %s" % (result, w, app, rest_thunk())
         raise Refuse("call %s as a statement" % k)
 
+    def fold(self, s, nxt):
+        cfg = self.m["folds"][ast.unparse(s.iter)]
+        if not isinstance(s.target, ast.Name) or s.orelse or self.loop is not None:
+            raise Refuse("loop shape")
+        body = [b for b in s.body if not (isinstance(b, ast.Expr) and isinstance(b.value, ast.Constant))]
+        # what the body assigns: locals defined before the loop and attributes of self are carried from one iteration to the next
+        carried = []
+        for n in ast.walk(ast.Module(body=body, type_ignores=[])):
+            tg = n.targets if isinstance(n, ast.Assign) else [n.target] if isinstance(n, ast.AugAssign) else []
+            for t in tg:
+                for x in (t.elts if isinstance(t, ast.Tuple) else [t]):
+                    if isinstance(x, ast.Name) and x.id in self.locals and ("l_" + x.id) not in carried:
+                        carried.append("l_" + x.id)
+                    ch = chain(x) if isinstance(x, ast.Attribute) else None
+                    if ch is not None and ch[0] not in self.g.ignore:
+                        nm = "_".join(cname(c) for c in ch)
+                        self.binder(nm, self.attr_type(nm))
+                        if nm not in carried:
+                            carried.append(nm)
+        has_break = any(isinstance(n, ast.Break) for n in ast.walk(ast.Module(body=body, type_ignores=[])))
+        if has_break:
+            carried.append("stop__")
+        if not carried:
+            raise Refuse("a loop that carries nothing")
+        acc = "(" + ", ".join(carried) + ")" if len(carried) > 1 else carried[0]
+        before_locals = dict(self.locals)
+        self.loop = {"var": s.target.id, "cfg": cfg, "fields": [], "acc": lambda: acc}
+        saved_refined = dict(self.refined)
+        self.refined = {k: v for k, v in self.refined.items() if k not in carried}
+        try:
+            text = self.block(body, lambda: acc)
+            fields = list(self.loop["fields"])
+        finally:
+            self.loop = None
+        self.locals = before_locals          # locals first assigned inside the body do not outlive it
+        self.refined = {k: v for k, v in saved_refined.items() if k not in carried}
+        if not fields:
+            raise Refuse("a loop that reads nothing of its elements")
+        items = cfg["items"]
+        self.binder(items, "coq:list (%s)" % " * ".join(self.coq_type(t) for _n, t in fields))
+        el = "(" + ", ".join(n for n, _t in fields) + ")" if len(fields) > 1 else fields[0][0]
+        if has_break:
+            text = "if stop__ then %s\n  else %s" % (acc, text)
+        pre = "let stop__ := false in\n  " if has_break else ""
+        def cty(c):
+            if c == "stop__":
+                return "bool"
+            if c.startswith("l_") and c[2:] in before_locals:
+                return self.coq_type(before_locals[c[2:]])
+            return self.coq_type(self.attr_type(c))
+        acc_ty = " * ".join(cty(c) for c in carried)
+        el_ty = " * ".join(self.coq_type(t) for _n, t in fields)
+        return "%slet '%s := fold_left (fun (acc__ : %s) (el__ : %s) => let '%s := acc__ in let '%s := el__ in\n  %s) %s %s in\n  %s" % (
+            pre, acc if len(carried) > 1 else "(%s)" % acc, acc_ty, el_ty, acc if len(carried) > 1 else "(%s)" % acc, el if len(fields) > 1 else "(%s)" % el,
+            text, items, acc, nxt())
+
     def block(self, stmts, rest):
         """rest: None = end of the method; otherwise a thunk giving the text of what follows"""
         if not stmts:
@@ -569,6 +679,16 @@ class TrM:
             if isinstance(s.value, ast.Call) and self.calls.get(call_key(s.value), [None])[0] == "fn":
                 raise Refuse("return of a state-changing call")
             val = s.value
+            rm = self.m.get("returns")
+            if rm is not None:
+                # returned values outside the subset are represented by configured constants ("default" for the rest)
+                key = ast.unparse(val)
+                if key not in rm and "default" not in rm:
+                    raise Refuse("return value %s" % key)
+                t, ty = rm.get(key, rm.get("default"))
+                if ty != self.rtype:
+                    raise Refuse("configured return type")
+                return self.final(t)
             if isinstance(val, ast.Dict) and self.m.get("ret_fields"):
                 # a returned dictionary is represented by the listed entries (every returned dictionary must have them)
                 have = {k.value: v for k, v in zip(val.keys, val.values) if isinstance(k, ast.Constant)}
@@ -577,13 +697,52 @@ class TrM:
                     raise Refuse("returned dictionary lacks %s" % missing)
                 parts = [self.expr(have[f]) for f in self.m["ret_fields"]]
                 t, ty = (parts[0] if len(parts) == 1 else ("(" + ", ".join(x for x, _ in parts) + ")", "*".join(y for _, y in parts)))
+            elif isinstance(val, ast.Tuple) and "*" in self.rtype and len(val.elts) == len(self.rtype.split("*")):
+                parts = []
+                for x, want in zip(val.elts, self.rtype.split("*")):
+                    tx, tyx = self.expr(x)
+                    if tyx == "Z" and want == "optZ":      # an optional known to be present on this path
+                        tx, tyx = "(Some %s)" % tx, "optZ"
+                    parts.append((tx, tyx))
+                t, ty = "(" + ", ".join(x for x, _ in parts) + ")", "*".join(y for _, y in parts)
             else:
                 t, ty = self.expr(val)
+                if ty == "Z" and self.rtype == "optZ":
+                    t, ty = "(Some %s)" % t, "optZ"
             if ty != self.rtype:
                 raise Refuse("return type %s, expected %s in %s" % (ty, self.rtype, self.f.name))
             return self.final(t)
         if isinstance(s, ast.Expr) and isinstance(s.value, ast.Call):
             return self.call_stmt(s.value, nxt)
+        if isinstance(s, ast.AnnAssign) and s.value is not None and s.simple:
+            return self.block([ast.copy_location(ast.Assign(targets=[s.target], value=s.value, type_comment=None), s)] + list(tail), rest)
+        if ast.unparse(s) in self.m.get("stmts", {}):
+            tr = self.m["stmts"][ast.unparse(s)]
+            if tr[0] == "erase":
+                return nxt()
+            if tr[0] == "emit":
+                return self.emit(tr, nxt)
+            raise Refuse("statement treatment %s" % (tr,))
+        if isinstance(s, ast.Continue) and self.loop is not None:
+            return self.loop["acc"]()
+        if isinstance(s, ast.Break) and self.loop is not None:
+            return "let stop__ := true in\n  %s" % self.loop["acc"]()
+        if isinstance(s, ast.Assign) and len(s.targets) == 1 and isinstance(s.targets[0], ast.Tuple) and self.loop is not None:
+            spec_f = self.loop["cfg"].get("fields", {}).get(ast.unparse(s.value))
+            names = [x.id for x in s.targets[0].elts if isinstance(x, ast.Name)]
+            if not isinstance(spec_f, list) or len(spec_f) != len(names) or len(names) != len(s.targets[0].elts):
+                raise Refuse("tuple assignment %s" % ast.unparse(s))
+            text = ""
+            for nm_, (fn_, ft_) in zip(names, spec_f):
+                self.field(fn_, ft_)
+                if nm_ in self.locals and self.locals[nm_] != ft_:
+                    raise Refuse("local %s re-assigned at another type" % nm_)
+                self.locals[nm_] = ft_
+                self.locals_seen.add("l_" + nm_)
+                text += "let l_%s := %s in\n  " % (nm_, fn_)
+            return text + nxt()
+        if isinstance(s, ast.For) and ast.unparse(s.iter) in self.m.get("folds", {}):
+            return self.fold(s, nxt)
         if isinstance(s, ast.For):
             tr = self.calls.get(self.for_key(s))
             if tr is None or s.orelse:
@@ -625,6 +784,8 @@ class TrM:
                 self.binder(nm, ty)        # its initial value is returned on the paths that do not assign it
                 return "let %s := %s in\n  %s" % (nm, t, nxt())
             if isinstance(target, ast.Name) and isinstance(s, ast.Assign):
+                if target.id in self.params and target.id in self.drop_params:
+                    return nxt()          # a parameter that is never read by the translation (normalised for the erased uses)
                 if target.id in self.params:
                     raise Refuse("assignment to parameter %s" % target.id)
                 if target.id in self.m.get("erase_locals", []) or target.id in self.m.get("local_objects", []):
@@ -641,8 +802,8 @@ class TrM:
                     raise
                 if target.id in self.locals:
                     have = self.locals[target.id]
-                    if have == "optZ" and ty == "Z":
-                        t, ty = "(Some %s)" % t, "optZ"
+                    if have in ("optZ", "infZ") and ty == "Z":
+                        t, ty = "(Some %s)" % t, have
                     if have != ty:
                         raise Refuse("local %s re-assigned at another type (%s, was %s)" % (target.id, ty, have))
                     self.refined.pop("l_" + target.id, None)
